@@ -366,6 +366,31 @@ impl Elem for String {
     }
 }
 
+impl Elem for (u8, u16) {
+    const NAME: &'static str = "(u8,u16)";
+    const TRACKED: bool = false;
+    const KEYED: bool = true;
+    fn fresh() -> (u8, u16) {
+        let v = mix(next_plain());
+        (v as u8, (v >> 8) as u16)
+    }
+    fn key(&self) -> u64 {
+        (self.0 as u64) << 16 | self.1 as u64
+    }
+}
+impl Elem for [u8; 3] {
+    const NAME: &'static str = "[u8;3]";
+    const TRACKED: bool = false;
+    const KEYED: bool = true;
+    fn fresh() -> [u8; 3] {
+        let v = mix(next_plain());
+        [v as u8, (v >> 8) as u8, (v >> 16) as u8]
+    }
+    fn key(&self) -> u64 {
+        (self[0] as u64) << 16 | (self[1] as u64) << 8 | self[2] as u64
+    }
+}
+
 /// Keys of a slice of elements, in order.
 pub fn keys<E: Elem>(xs: &[E]) -> Vec<u64> {
     let _m = crate::alloc::Mask::new();
